@@ -43,7 +43,10 @@ BeyondEntryCases ==
         body1 == good \o lie(bad, 1)  body2 == lie(bad, 60000) \o good  body3 == good \o good \o lie(bad, 7) IN
     << Mk("beyondentry", ListFn, BE16(Len(body1)) \o body1, <<q>>, 0),
        Mk("beyondentry", ListFn, BE16(Len(body2)) \o body2, <<>>, 0),
-       Mk("beyondentry", ListFn, BE16(Len(body3)) \o body3, <<q, q>>, 0) >>])
+       Mk("beyondentry", ListFn, BE16(Len(body3)) \o body3, <<q, q>>, 0),
+       Mk("beyondentry", ListFn, BE16(Len(body1)) \o body1 \o <<7>> \o good, <<q>>, 0),
+       Mk("beyondentry", ListFn, BE16(Len(body2)) \o body2 \o Fill(q, 60100), <<>>, 0),
+       Mk("beyondentry", ListFn, BE16(Len(body3)) \o body3 \o <<1, 2, 3, 4, 5, 6, 7, 8, 9>>, <<q, q>>, 0) >>])
 (* a list whose declared length exceeds the input *)
 BeyondListCases ==
   Concat([q \in 1..6 |->
